@@ -29,6 +29,10 @@ pub trait Property: Sync {
     /// enabled continuations in the reached state
     fn enabled(&self, w: &Self::World, len: usize) -> Vec<Self::Op>;
     fn absorb(&self, _w: &Self::World, _s: &mut Self::Stats) {}
+    /// canonical state hash (see canon.rs); `None` = this state is never merged with another
+    fn canon(&self, _w: &Self::World) -> Option<u64> {
+        None
+    }
     /// kind of an op for signatures (first word by default)
     fn kind(&self, op: &Self::Op) -> String {
         op.to_string().split_whitespace().next().unwrap_or("").to_string()
@@ -46,6 +50,13 @@ pub struct Report<P: Property> {
     pub outcomes: HashSet<u64>,
     pub per_level: Vec<u64>,
     pub completed_depth: usize,
+    /// programs per level whose continuations were not explored because an already expanded program reached the
+    /// same canonical state (only at depths > `dedup_from`)
+    pub merged_per_level: Vec<u64>,
+    /// distinct canonical states seen
+    pub canon_states: u64,
+    /// wall time until the last plainly exhaustive level completed (zero if it did not)
+    pub exhaustive_wall: Duration,
     pub capped: bool,
     pub violations: Vec<Found<P::Op>>,
     pub stats: P::Stats,
@@ -109,7 +120,7 @@ pub fn cleanup_scratch() {
 }
 
 pub enum RunResult<O> {
-    Ok { children: Vec<O>, digests: Vec<u64> },
+    Ok { children: Vec<O>, digests: Vec<u64>, canon: Option<u64> },
     Bad(Violation),
 }
 
@@ -144,12 +155,13 @@ pub fn run_program<P: Property>(
         // continuations are computed on the reached state, before the oracle runs (an oracle may drive the
         // database further, e.g. C10's quiescence clause)
         let children = if program.len() < max_len { prop.enabled(&w, program.len()) } else { vec![] };
+        let canon = if program.len() < max_len { prop.canon(&w) } else { None };
         match prop.check(&mut w) {
             Ok(digests) => {
                 if let Some(s) = stats {
                     prop.absorb(&w, s);
                 }
-                RunResult::Ok { children, digests }
+                RunResult::Ok { children, digests, canon }
             }
             Err(v) => RunResult::Bad(v),
         }
@@ -175,6 +187,26 @@ pub fn explore<P: Property>(
 where
     P::Stats: Send,
 {
+    explore_dedup(prop, max_depth, max_depth, deadline, Duration::ZERO, threads, merge)
+}
+
+/// Like `explore`, but at depths >= `dedup_from` a program is only extended if no program executed earlier (shorter,
+/// or same length and smaller in program order) reached the same canonical state. Up to `dedup_from - 1` every
+/// enabled program is extended (plain exhaustive enumeration); every executed program is judged by the oracle either
+/// way.
+pub fn explore_dedup<P: Property>(
+    prop: &P,
+    dedup_from: usize,
+    max_depth: usize,
+    deadline: Instant,
+    // time allowed for the levels beyond `dedup_from`, counted from the moment level `dedup_from` completed
+    ext_budget: Duration,
+    threads: usize,
+    merge: &(dyn Fn(&mut P::Stats, P::Stats) + Sync),
+) -> Report<P>
+where
+    P::Stats: Send,
+{
     let start = Instant::now();
     let mut level: Vec<Vec<P::Op>> = vec![vec![]];
     let mut report = Report::<P> {
@@ -183,6 +215,9 @@ where
         outcomes: HashSet::new(),
         per_level: vec![],
         completed_depth: 0,
+        merged_per_level: vec![],
+        canon_states: 0,
+        exhaustive_wall: Duration::ZERO,
         capped: false,
         violations: vec![],
         stats: P::Stats::default(),
@@ -190,10 +225,13 @@ where
         wall: Duration::ZERO,
     };
     let mut depth = 0usize;
+    let mut seen: HashSet<u64> = HashSet::new();
+    let mut deadline = deadline;
     loop {
         let next_idx = AtomicUsize::new(0);
         let timed_out = AtomicBool::new(false);
-        let out_next: Mutex<Vec<Vec<P::Op>>> = Mutex::new(vec![]);
+        // (index of the parent in `level`, its canonical state, its continuations)
+        let out_next: Mutex<Vec<(usize, Option<u64>, Vec<P::Op>)>> = Mutex::new(vec![]);
         let out_viol: Mutex<Vec<Found<P::Op>>> = Mutex::new(vec![]);
         let out_digests: Mutex<HashSet<u64>> = Mutex::new(HashSet::new());
         let out_stats: Mutex<P::Stats> = Mutex::new(P::Stats::default());
@@ -218,15 +256,11 @@ where
                         }
                         let prog = &level_ref[i];
                         match run_program(prop, prog, max_depth, Some(&mut local_stats)) {
-                            RunResult::Ok { children, digests } => {
+                            RunResult::Ok { children, digests, canon } => {
                                 for d in digests {
                                     local_dig.insert(d);
                                 }
-                                for c in children {
-                                    let mut p = prog.clone();
-                                    p.push(c);
-                                    local_next.push(p);
-                                }
+                                local_next.push((i, canon, children));
                             }
                             RunResult::Bad(v) => {
                                 out_viol.lock().unwrap().push(Found { program: prog.clone(), v });
@@ -252,7 +286,31 @@ where
             break;
         }
         report.completed_depth = depth;
-        let mut next = out_next.into_inner().unwrap();
+        if depth == dedup_from && max_depth > dedup_from {
+            report.exhaustive_wall = start.elapsed();
+            deadline = Instant::now() + ext_budget;
+        }
+        // expansion, in program order (deterministic choice of the representative of a canonical state)
+        let mut results = out_next.into_inner().unwrap();
+        results.sort_by_key(|r| r.0);
+        let mut next: Vec<Vec<P::Op>> = vec![];
+        let mut merged = 0u64;
+        for (i, canon, children) in results {
+            if let Some(c) = canon {
+                let fresh = seen.insert(c);
+                if !fresh && depth >= dedup_from {
+                    merged += 1;
+                    continue;
+                }
+            }
+            for c in children {
+                let mut p = level[i].clone();
+                p.push(c);
+                next.push(p);
+            }
+        }
+        report.merged_per_level.push(merged);
+        report.canon_states = seen.len() as u64;
         if depth >= max_depth || next.is_empty() {
             // keep a few samples of the deepest level
             for p in level.iter().rev().take(2) {
